@@ -43,7 +43,8 @@ void hwloc_pci_discovery_init(struct hwloc_topology *t) { (void) t; }
 char *hwloc_progname(struct hwloc_topology *t) { (void) t; return 0; }
 #ifndef VP_SEED_REAL_DISTANCES
 void hwloc_internal_distances_init(hwloc_topology_t t) { t->first_dist = t->last_dist = NULL; t->next_dist_id = 0; }
-void hwloc_internal_distances_invalidate_cached_objs(hwloc_topology_t t) { (void) t; }
+static unsigned vp_stub_dist_invalidated;      /* how often the core asked for the cached object pointers of the distances to be dropped */
+void hwloc_internal_distances_invalidate_cached_objs(hwloc_topology_t t) { (void) t; vp_stub_dist_invalidated++; }
 void hwloc_internal_distances_refresh(hwloc_topology_t t) { (void) t; }
 void hwloc_internal_distances_destroy(hwloc_topology_t t) { (void) t; }
 #endif
